@@ -4,7 +4,7 @@ SRCDIR := $(REPO)/src
 SRCS := $(wildcard $(SRCDIR)/*.cpp)
 NAMES := $(notdir $(SRCS:.cpp=))
 B := /verif/build
-GUARD := -DCOLVARS_VERIF
+GUARD := -DCOLVARS_VERIF -DVERIF_DEPS_HOOK
 
 CXX_REL := g++
 FLAGS_REL := -std=c++11 -O2 -g0 -fPIC $(GUARD) -I$(SRCDIR) -pthread
